@@ -7,7 +7,7 @@ let evaluators : (string * (Sx.t -> Sx.t -> Sx.t list * bool * bool * string)) l
   "C14", G_chain.eval_c14;
   "C15", G_chain.eval_c15;
   "C01", G_router.eval "C01"; "C02", G_router.eval "C02"; "C07", G_router.eval "C07";
-  "C08", G_router.eval "C08"; "C12", G_router.eval "C12"; "C11", G_groups.eval; "C06", G_parser.eval; "C04", G_inject.eval; "C18", G_accessors.eval; "C16", G_static.eval; "C17", G_render.eval; "C09", G_router.eval "C09"; "C10", G_router.eval "C10";
+  "C08", G_router.eval "C08"; "C12", G_router.eval "C12"; "C11", G_groups.eval; "C06", G_parser.eval; "C04", G_inject.eval; "C18", G_accessors.eval; "C16", G_static.eval; "C17", G_render.eval; "C05", G_conc.eval; "C09", G_router.eval "C09"; "C10", G_router.eval "C10";
 ]
 
 let () =
